@@ -89,6 +89,7 @@ class Exec:
         self.hashseed = z3.Int("hashseed")
         self.current_info: Optional[FuncInfo] = None
         self.inline_depth = 0
+        self.variant = ""
         self.call_depth = 0
         self.used_assumptions: set = set()
         self.opaque_calls: set = set()
@@ -945,6 +946,13 @@ class Exec:
                 outs = nxt
             return [(s, z3.And(*acc) if acc else z3.BoolVal(True)) for s, acc in outs]
         za, zb = self.term(a, st), self.term(b, st)
+        if self.hint_of(a, st) in ("set", "frozenset") and self.hint_of(b, st) in ("set", "frozenset"):
+            # two sets are equal iff they have the same members
+            x = z3.Const("sex", M.Obj)
+            self.used_assumptions.add("builtin: set == set is extensional (same members)")
+            r = M.fresh("seteq", M.B)
+            st.assume(r == z3.ForAll([x], M.has(za, x) == M.has(zb, x), patterns=[M.has(za, x), M.has(zb, x)]))
+            return [(st, r)]
         if getattr(self, "generic_eq", False):
             # inside Props.__eq__ & co.: operands may be schemas / containers of schemas, so `==` is the
             # relation gen_eq whose definition (contracts/equality.py) honours Schema.__eq__ = eq
@@ -1406,7 +1414,7 @@ class Exec:
     def call_fn(self, f: Fn, pos: List[Any], kws: Dict[str, Any], kwrest: Optional[Kw], st: State,
                 node: Any = None) -> List[Tuple[State, Any]]:
         info = f.info
-        con = self.contracts.lookup(info, self)
+        con = self.contracts.lookup(info, self, f.bound, st)
         if con is not None:
             return self.contracts.apply(self, con, info, f.bound, pos, kws, kwrest, st)
         if con is None and not self.contracts.is_transparent(info):
